@@ -20,7 +20,7 @@ CONFIG = {
     "shards": {"quick": 8, "thorough": 16},
     "budget_s": {"quick": 120, "thorough": 1500},
     "rule": ("Hypothesis, four sub-checks. tree: shape (1-8 leaves quick / <= 40 thorough; polytomies, unifurcations, "
-             "labels, taxa on internal nodes, every length pattern, three rootings, weight, namespace history with unused/removed taxa) decorated "
+             "labels, taxa on internal nodes, every length pattern, three rootings, weight, namespace history with unused/removed taxa, in about half of the cases taxon labels edited into duplicates / case variants / None) decorated "
              "with static annotations (scalar and list values, sub-annotations), attribute-bound annotations (own custom "
              "attributes, built-in label/length/weight, owner = the node's edge), comments, extra attributes (scalars, "
              "lists, references to nodes of the same tree) on tree / nodes / edges / taxa / namespace, with or without "
@@ -38,7 +38,9 @@ CONFIG = {
                                  "2-tree list, standard matrix and namespace",
                         "thorough": "same, with 3 selector values per mutation"},
     "assumptions": [
-        "taxon labels are distinct (also case-insensitively) strings; every leaf carries a taxon, internal nodes may carry "
+        "taxon labels are strings or None and need NOT identify the taxa: after construction some labels are edited into "
+        "duplicates, case variants of another label, or None (except on the taxon_namespace= route, which maps taxa by label "
+        "and is only exercised with unique labels); every leaf carries a taxon, internal nodes may carry "
         "one too (each taxon on at most one node of a tree), and the namespace may hold taxa that sit on no node",
         "copy.copy / clone(0) of a Tree is asserted namespace-scoped (Tree.__copy__); for TreeList / CharacterMatrix / "
         "TaxonNamespace clone(0) / copy.copy is documented shallow, so only 'new container with the same members, "
@@ -209,9 +211,21 @@ CONT_POOL = [0.0, 1.0, -2.5, 0.125, 1e-9, 3.141592653589793, 1e12, 7]
 
 
 @st.composite
+def relabels(draw, n):
+    """Later edits of taxon labels (taxon.label = ...) after which labels no longer identify the taxa of the namespace:
+    [[taxon index, "dup" | "case" | "none", other taxon index]] -> the label of `other`, its lower-case variant, or None."""
+    if n < 1 or not draw(B):
+        return []
+    return [[draw(st.integers(0, n - 1)), draw(st.sampled_from(["dup", "case", "none"])), draw(st.integers(0, n - 1))]
+            for _ in range(draw(st.integers(1, 2)))]
+
+
+@st.composite
 def tree_cases(draw, max_leaves, route=None):
     obj = draw(tree_objects(max_leaves))
     route = route or draw(st.sampled_from(TREE_ROUTES))
+    if route != "ctor_ns":
+        obj["relabel"] = draw(relabels(shapes.n_leaves(obj["spec"])))
     case = {"obj": obj, "route": route, "mut": draw(muts(TREE_MUTS))}
     if route == "ctor_ns":
         case["foreign"] = draw(foreign_ns(shapes.n_leaves(obj["spec"])))
@@ -231,6 +245,8 @@ def list_cases(draw, max_leaves, route=None):
            "label": draw(st.sampled_from([None, "trees"])), "ldec": draw(decor(builtin=("label",), refs=True)),
            "xdec": [[draw(st.integers(0, n - 1)), draw(decor(p=2))] for _ in range(draw(st.integers(0, 1)))]}
     route = route or draw(st.sampled_from(LIST_ROUTES))
+    if route != "ctor_ns":
+        obj["relabel"] = draw(relabels(n))
     case = {"obj": obj, "route": route, "mut": draw(muts(LIST_MUTS)), "tmut": draw(muts(TREE_MUTS)),
             "newtree": draw(tree_objects(min(4, max_leaves), n_taxa=n, internal_pool=spare_taxa(hist, n)))}
     if route == "ctor_ns":
@@ -260,6 +276,8 @@ def matrix_cases(draw, max_taxa, max_cols, route=None):
            "cellann": [[draw(SEL), draw(SEL), draw(st.sampled_from(ANN_NAMES)), draw(VALUES)] for _ in range(draw(st.integers(0, 2)))],
            "xdec": [[draw(st.integers(0, n - 1)), draw(decor(p=2))] for _ in range(draw(st.integers(0, 1)))]}
     route = route or draw(st.sampled_from(MATRIX_ROUTES))
+    if route != "ctor_ns":
+        obj["relabel"] = draw(relabels(n))
     case = {"obj": obj, "route": route, "mut": draw(muts(MATRIX_MUTS))}
     if route == "ctor_ns":
         case["foreign"] = draw(foreign_ns(n))
@@ -272,7 +290,8 @@ def ns_cases(draw, max_taxa, route=None):
     obj = {"kind": "namespace", "n": n, "hist": draw(shapes.namespace_history(n, max_extra=2)),
            "label": draw(st.sampled_from([None, "taxa"])), "nsdec": draw(decor(builtin=("label",))),
            "xdec": [[draw(st.integers(0, max(0, n - 1))), draw(decor())] for _ in range(draw(st.integers(0, 3)) if n else 0)],
-           "case_sensitive": draw(B), "immutable": draw(st.integers(0, 5)) == 5, "bitmasks_cached": draw(B)}
+           "case_sensitive": draw(B), "immutable": draw(st.integers(0, 5)) == 5, "bitmasks_cached": draw(B),
+           "relabel": draw(relabels(n))}
     return {"obj": obj, "route": route or draw(st.sampled_from(NS_ROUTES)), "mut": draw(muts(NS_MUTS))}
 
 
@@ -324,7 +343,38 @@ def build_ns(obj, **kw):
     for idx, dec in obj.get("xdec", []):
         if idx in taxa:
             decorate(taxa[idx], dec)
+    relabel_taxa(taxa, obj.get("relabel"))
     return ns, taxa
+
+
+def relabel_taxa(taxa, relabel):
+    """Labels edited after the namespace was filled (e.g. names shortened): duplicates, case variants, unlabelled taxa."""
+    n = len([i for i in taxa])
+    for idx, how, other in relabel or []:
+        if idx not in taxa:
+            continue
+        if other == idx and (idx + 1) in taxa:
+            other = idx + 1
+        if how == "dup":
+            taxa[idx].label = "T%d" % other
+        elif how == "case":
+            taxa[idx].label = "t%d" % other
+        else:
+            taxa[idx].label = None
+
+
+def label_classes(ns):
+    """Evidence classes: in which ways do the labels of this namespace fail to identify its taxa?"""
+    labels = [t._label for t in ns._taxa]
+    out = []
+    if any(l is None for l in labels):
+        out.append("unlabelled_taxon")
+    strs = [l for l in labels if isinstance(l, str)]
+    if len(set(strs)) < len(strs):
+        out.append("duplicate_labels")
+    if len(set(l.lower() for l in strs)) < len(set(strs)):
+        out.append("labels_differing_in_case_only")
+    return out or ["labels_unique"]
 
 
 def build_tree_obj(obj, ns=None, taxa=None):
@@ -788,6 +838,7 @@ def check_tree(ctx, case):
     foreign = build_foreign(case["foreign"], n) if depth == "foreign" else None
     foreign_before = list(foreign._taxa) if foreign is not None else None
     roster_s = list(ns._taxa)
+    labels_at_copy = label_classes(ns)
     tag = "tree %s%s%s via %s" % (shapes.spec_to_newick(obj["spec"]), " [encoded]" if obj.get("enc") else "",
                                  " [annotated]" if tree_is_interesting(obj) else "", route)
     pre = observe_tree(src, roster_s)
@@ -880,6 +931,8 @@ def check_tree(ctx, case):
     effective = observe_tree(mobj, mroster, skip=skip) != mbefore
     ctx.cls("mutation_effective" if effective else "mutation_without_effect")
     ctx.cls("tree_route:" + route)
+    for c in labels_at_copy:
+        ctx.cls("tree_labels:" + c)
     ctx.cls("tree_mut:" + applied)
     if applied != mut["kind"]:
         ctx.cls("fallback_from:tree:" + mut["kind"])
@@ -963,13 +1016,13 @@ def taxa_by_index(ns):
     return out
 
 
-def mutate_list(ctx, tl, case, tag):
+def mutate_list(ctx, tl, case, tag, taxa=None):
     mut = case["mut"]
     kind, sel, sel2, val, flag = mut["kind"], mut["sel"], mut["sel2"], mut["val"], mut["flag"]
     ns = tl._taxon_namespace
     k = len(tl._trees)
     def newtree():
-        return build_tree_obj(case["newtree"], ns, taxa_by_index(ns))
+        return build_tree_obj(case["newtree"], ns, taxa if taxa is not None else taxa_by_index(ns))
     if kind == "tree" and k:
         applied, nslevel = mutate_tree(ctx, tl._trees[sel2 % k], case["tmut"], tag)
         return "tree." + applied, nslevel
@@ -1003,11 +1056,12 @@ def check_list(ctx, case):
     import dendropy
     obj, route = case["obj"], case["route"]
     depth = list_depth(route)
-    src, _ = build_treelist_obj(obj)
+    src, taxa_s = build_treelist_obj(obj)
     ns = src._taxon_namespace
     foreign = build_foreign(case["foreign"], obj["n"]) if depth == "foreign" else None
     foreign_before = list(foreign._taxa) if foreign is not None else None
     roster_s = list(ns._taxa)
+    labels_at_copy = label_classes(ns)
     interesting = has_decor(obj.get("ldec")) or any(tree_is_interesting(t) for t in obj["trees"])
     tag = "tree list [%s]%s via %s" % (" ".join(shapes.spec_to_newick(t["spec"]) for t in obj["trees"]),
                                        " [annotated/encoded]" if interesting else "", route)
@@ -1059,7 +1113,12 @@ def check_list(ctx, case):
     side = mut["side"]
     mobj, mroster, oobj, oroster = (src, roster_s, cp, roster_c) if side == "src" else (cp, roster_c, src, roster_s)
     before = observe_list(oobj, oroster)
-    applied, nslevel = mutate_list(ctx, mobj, case, tag)
+    taxa_m = None
+    if depth != "foreign" and len(mroster) == len(roster_s):
+        # the copy lists its taxa in the source's order: taxon index -> the mutated side's own Taxon object, by position
+        pos = dict((id(t), p) for p, t in enumerate(roster_s))
+        taxa_m = dict((i, mroster[pos[id(t)]]) for i, t in taxa_s.items())
+    applied, nslevel = mutate_list(ctx, mobj, case, tag, taxa_m)
     after = observe_list(oobj, oroster)
     mtag = "%s; then %s (sel=%d) on the %s" % (tag, applied, mut["sel"], "source" if side == "src" else "copy")
     KM = "C12.independent:%s:%s" % (K, applied)
@@ -1070,6 +1129,8 @@ def check_list(ctx, case):
     else:
         ctx.cls("shared_taxon_change_visible_by_design")
     ctx.cls("list_route:" + route)
+    for c in labels_at_copy:
+        ctx.cls("list_labels:" + c)
     ctx.cls("list_mut:" + applied)
     if applied != mut["kind"] and not applied.startswith("tree."):
         ctx.cls("fallback_from:list:" + mut["kind"])
@@ -1163,6 +1224,7 @@ def check_matrix(ctx, case):
     foreign = build_foreign(case["foreign"], obj["n"]) if depth == "foreign" else None
     foreign_before = list(foreign._taxa) if foreign is not None else None
     roster_s = list(ns._taxa)
+    labels_at_copy = label_classes(ns)
     interesting = matrix_is_interesting(obj)
     tag = "%s matrix %r%s via %s" % (obj["dtype"], obj["rows"], " [annotated]" if interesting else "", route)
     K = "matrix:" + route
@@ -1226,6 +1288,8 @@ def check_matrix(ctx, case):
     else:
         ctx.cls("shared_taxon_change_visible_by_design")
     ctx.cls("matrix_route:" + route)
+    for c in labels_at_copy:
+        ctx.cls("matrix_labels:" + c)
     ctx.cls("matrix_mut:" + applied)
     if applied != mut["kind"]:
         ctx.cls("fallback_from:matrix:" + mut["kind"])
@@ -1264,7 +1328,7 @@ def mutate_ns(ctx, ns, mut, tag):
         ns.comments.append("later comment")
     elif kind == "taxon_ann_value" and taxa:
         kind = "taxon_" + mutate_annotations([taxa[sel % len(taxa)]], "ann_value", sel, sel2, val)
-    elif kind == "sort":
+    elif kind == "sort" and all(isinstance(t._label, str) for t in taxa):
         ns.sort(reverse=flag)
     elif kind == "reverse":
         ns.reverse()
@@ -1284,6 +1348,7 @@ def check_ns(ctx, case):
     depth = ns_depth(route)
     src, _ = build_namespace_obj(obj)
     roster_s = list(src._taxa)
+    labels_at_copy = label_classes(src)
     interesting = has_decor(obj.get("nsdec")) or any(has_decor(d) for _, d in obj.get("xdec", []))
     tag = "namespace %r%s via %s" % ([t._label for t in roster_s], " [annotated]" if interesting else "", route)
     K = "namespace:" + route
@@ -1291,6 +1356,8 @@ def check_ns(ctx, case):
     cp = make_copy(ctx, "namespace", src, route, case)
     same(ctx, observe_ns(src, roster_s), pre, "copying_leaves_source_unchanged", "C12.source_unchanged:" + K, tag)
     ctx.cls("ns_route:" + route)
+    for c in labels_at_copy:
+        ctx.cls("ns_labels:" + c)
     if depth == "identity":
         ctx.check(cp is src, "namespace_scoped_copy_of_a_namespace_is_the_namespace", "C12.equal:" + K, tag)
         ctx.cls("namespace_scoped_copy_is_the_namespace_itself")
@@ -1378,6 +1445,8 @@ FIXED_NS = {"kind": "namespace", "n": 3, "hist": {"extra": 2, "order": [3, 0, 4,
                       "extra": [["x1", [5]]]},
             "xdec": [[0, {"ann": [["size", 3]], "bound": [["b0", 1, False]], "comments": ["tc"]}], [2, {"ann": [["note", [2]]]}]],
             "case_sensitive": False, "immutable": False, "bitmasks_cached": True}
+# T1 becomes a second "T0", T3 becomes "t2" (equal to T2 in a case-insensitive namespace), the taxon on internal node n1 loses its label
+FIXED_RELABEL = [[1, "dup", 0], [3, "case", 2], [4, "none", 4]]
 FIXED_FOREIGN = {"have": [2, 0], "other": 1, "other_first": True, "case_sensitive": False}
 
 
@@ -1390,6 +1459,8 @@ def exhaustive_items(sels):
             for route in TREE_ROUTES:
                 for kind in TREE_MUTS:
                     items.append({"what": "tree", "route": route, "mut": mut(side, kind, sel)})
+                    if route != "ctor_ns":
+                        items.append({"what": "tree", "route": route, "mut": mut(side, kind, sel), "relabel": FIXED_RELABEL})
             for route in LIST_ROUTES:
                 for kind in sorted(set(LIST_MUTS) - {"tree"}):
                     items.append({"what": "treelist", "route": route, "mut": mut(side, kind, sel)})
@@ -1408,7 +1479,7 @@ def check_exh(ctx, item):
     what, route = item["what"], item["route"]
     case = {"route": route, "mut": item["mut"], "foreign": FIXED_FOREIGN, "su": True, "esr": bool(item["mut"]["sel"] & 2)}
     if what == "tree":
-        check_tree(ctx, dict(case, obj=FIXED_TREE))
+        check_tree(ctx, dict(case, obj=dict(FIXED_TREE, relabel=item["relabel"]) if item.get("relabel") else FIXED_TREE))
     elif what == "treelist":
         check_list(ctx, dict(case, obj=FIXED_LIST, tmut=item.get("tmut", item["mut"]), newtree=FIXED_SMALL_TREE))
     elif what == "matrix":
